@@ -25,7 +25,7 @@ func (o Obligation) Key() string { return o.Rule + " " + o.Construct }
 
 // Ctx is the state of one property check.
 type Ctx struct {
-	pkgIters []string
+	pkgIters    []string
 	P           *Program
 	M           *Model
 	Prop        string
